@@ -1,23 +1,24 @@
 #!/bin/bash
-# Applies each patch under /verif/sensitivity (or the ones named) to /repo, confirms the baseline
+# Applies each patch under /verif/sensitivity (or the ones named) to $REPO, confirms the baseline
 # suite still passes, runs the quick check, and reverts. D*/R*/T* must be caught (exit 1),
 # B* (benign: behaviour changes or refactorings under which C08 still holds) must stay silent (exit 0).
 # usage: tools/sensitivity.sh [patch ...]
 set -u
 VERIF="$(cd "$(dirname "${BASH_SOURCE[0]}")/.." && pwd)"
+REPO="${VERIF_REPO:-/repo}"; export VERIF_REPO="$REPO"
 export CARGO_NET_OFFLINE=true
 cd "$VERIF"
-if [ -n "$(git -C /repo status --porcelain --untracked-files=no)" ]; then echo "/repo is not clean"; exit 2; fi
+if [ -n "$(git -C $REPO status --porcelain --untracked-files=no)" ]; then echo "$REPO is not clean"; exit 2; fi
 patches=("$@"); [ ${#patches[@]} -eq 0 ] && patches=(sensitivity/*.diff)
 fail=0
 for p in "${patches[@]}"; do
   name="$(basename "$p" .diff)"
-  git -C /repo apply "$VERIF/$p" 2>/dev/null || git -C /repo apply "$p" || { echo "$name: patch does not apply"; fail=1; continue; }
-  tests="$(cd /repo && cargo nextest run --workspace --no-fail-fast --offline 2>&1 | grep -E "^\s+Summary" | sed 's/^ *//')"
+  git -C $REPO apply "$VERIF/$p" 2>/dev/null || git -C $REPO apply "$p" || { echo "$name: patch does not apply"; fail=1; continue; }
+  tests="$(cd $REPO && cargo nextest run --workspace --no-fail-fast --offline 2>&1 | grep -E "^\s+Summary" | sed 's/^ *//')"
   t0=$(date +%s)
   out="$(./check C08 --tier quick --no-evidence --run-timeout 25 --first-only 2>&1)"; rc=$?
   t1=$(date +%s)
-  git -C /repo checkout -q -- . ; git -C /repo clean -fdq visitor plugin
+  git -C $REPO checkout -q -- . ; git -C $REPO clean -fdq visitor plugin
   first="$(echo "$out" | grep -m1 -E "^--- " | cut -c1-150)"
   nviol="$(echo "$out" | grep -c "^VIOLATION")"
   case "$name" in
